@@ -6,6 +6,7 @@ import (
 	"github.com/itchio/wharf/pwr/bowl"
 	"io"
 	"os"
+	"reflect"
 	"sync"
 
 	"github.com/itchio/lake"
@@ -19,6 +20,8 @@ import (
 //	mode 2: tiny (1..3 bytes) with probability 1/4, else full
 //	mode 3: block-edge hunting: lengths that end 1 byte before/at/after a multiple of Edge
 //	mode 4: fixed small chunk (seed%97+1)
+//	mode 5: fixed chunk of 20000..39999 bytes (what a network reader hands out: sizeable, and
+//	        aligned with nothing)
 type Slicer struct {
 	Mode    int
 	Edge    int
@@ -63,6 +66,8 @@ func (s *Slicer) Next(n int) int {
 		}
 	case 4:
 		m = int(s.seed%97) + 1
+	case 5:
+		m = 20000 + int(s.seed%20000)
 	}
 	if m < 1 {
 		m = 1
@@ -95,13 +100,17 @@ type Pool struct {
 	Slice    *Slicer // nil: full reads
 	Yield    func(site string)
 	FailRead int                // >0: the FailRead-th Read returns ErrInjected
+	FailSeek int                // >0: the FailSeek-th Seek fails with ErrInjected and leaves the reader where it was
 	OnRead   func(ev ReadEvent) // called before each read (scheduler actions, mid-run damage)
-	Record   bool
-	EOFWith  bool // deliver io.EOF together with the last bytes of a file (legal io.Reader behaviour)
+	// AfterRead is called when a read has its bytes, before it returns them (a slow response)
+	AfterRead func(ev ReadEvent)
+	Record    bool
+	EOFWith   bool // deliver io.EOF together with the last bytes of a file (legal io.Reader behaviour)
 
 	mu      sync.Mutex
 	History []ReadEvent
 	reads   int
+	seeks   int
 	Faults  int
 	lastRS  *poolReader
 }
@@ -157,6 +166,12 @@ func (p *Pool) GetReadSeeker(i int64) (io.ReadSeeker, error) {
 	if err != nil {
 		return nil, err
 	}
+	if v := reflect.ValueOf(rs); rs == nil || (v.Kind() == reflect.Ptr && v.IsNil()) {
+		// lake's fspool (a dependency, not the code under test) forgets to reset its cached index
+		// when an open fails: asked again for the file it had open before, it returns a nil reader
+		// and no error. The seam reports what the pool should have reported.
+		return nil, fmt.Errorf("sim: pool %s has no reader for file %d (its last open failed)", p.Name, i)
+	}
 	off, _ := rs.Seek(0, io.SeekCurrent)
 	// like the pools wharf ships, hand out the same object as long as the underlying reader is the
 	// same one (callers may, rightly or wrongly, remember it)
@@ -209,6 +224,9 @@ func (r *poolReader) Read(b []byte) (int, error) {
 		got, err = r.r.Read(b[:m])
 	}
 	p.rec(ReadEvent{Op: "read", Index: r.idx, Off: r.off, N: got})
+	if p.AfterRead != nil {
+		p.AfterRead(ReadEvent{Op: "read", Index: r.idx, Off: r.off, N: got})
+	}
 	r.off += int64(got)
 	if err == nil && got > 0 && p.EOFWith && r.off >= p.Inner.GetSize(r.idx) {
 		// the reader knows it is at the end: report it with the data instead of on the next call
@@ -221,6 +239,15 @@ func (r *poolReader) Read(b []byte) (int, error) {
 func (r *poolReader) Seek(off int64, whence int) (int64, error) {
 	if r.rs == nil {
 		return 0, fmt.Errorf("sim pool: not seekable")
+	}
+	r.p.mu.Lock()
+	r.p.seeks++
+	failNow := r.p.FailSeek > 0 && r.p.seeks == r.p.FailSeek
+	r.p.mu.Unlock()
+	if failNow {
+		// the position of the underlying reader does not change
+		r.p.Faults++
+		return r.off, ErrInjected
 	}
 	n, err := r.rs.Seek(off, whence)
 	r.p.rec(ReadEvent{Op: "seek", Index: r.idx, Off: n})
